@@ -48,8 +48,17 @@ def confirm(mdir, name):
         rc, out = sh("cargo test --offline --test demo 2>&1 | tail -30", cwd=wt)
         res["demo_with_mutation"] = "fails" if ("FAILED" in out or "panicked" in out or "error: test failed" in out) else "passes"
         res["demo_with_tail"] = out[-500:]
+        release = ""
+        if res["demo_with_mutation"] == "passes":
+            # some changes only manifest with overflow checks / debug assertions off
+            rc, out = sh("cargo test --offline --release --test demo 2>&1 | tail -30", cwd=wt)
+            if "FAILED" in out or "panicked" in out or "error: test failed" in out:
+                res["demo_with_mutation"] = "fails"
+                res["demo_profile"] = "release only"
+                res["demo_with_tail"] = out[-500:]
+                release = "--release "
         sh("git checkout -- src", cwd=wt)  # Cargo.toml keeps the demo's dev-dependency
-        rc, out = sh("cargo test --offline --test demo 2>&1 | tail -30", cwd=wt)
+        rc, out = sh(f"cargo test --offline {release}--test demo 2>&1 | tail -30", cwd=wt)
         res["demo_without_mutation"] = "passes" if ("test result: ok" in out and "FAILED" not in out) else "fails"
         res["demo_without_tail"] = out[-300:]
         res["ok"] = res["suite_with_mutation"] == "pass" and res["demo_with_mutation"] == "fails" and res["demo_without_mutation"] == "passes"
